@@ -122,6 +122,12 @@ def generate(prop, rng, tier):
         if t == 'scribble':
             op['fill'] = rng.choice(GARBAGE)
         ops.append(op)
+    if rng.random() < 0.2:
+        # the same process first transforms with the twin configuration of
+        # the OTHER precision (seed a18: whatever the library keeps at module
+        # level -- phase factors, plans, wisdom -- must be keyed by precision)
+        ops.insert(0, {'t': 'twin_call', 'obj': 'T', 'i': 0,
+                       'path': rng.choice(['oop', 'ip'])})
     # memory layouts of the pool elements (a cached FFTW plan is tied to the
     # strides it was made for) and of the out arguments
     return {'cfg': cfg, 'ops': ops, 'garbage': rng.choice(GARBAGE[:4]),
@@ -307,6 +313,24 @@ def execute(prop, plan, ctx):
             if t == 'forget':
                 pyfftw.forget_wisdom()
                 ctx.fired('wisdom-forgotten')
+            elif t == 'twin_call':
+                twin = {'float64': 'float32', 'float32': 'float64',
+                        'complex128': 'complex64',
+                        'complex64': 'complex128'}[cfg['dtype']]
+                c2 = dict(cfg, dtype=twin)
+                with seams.allocator(gk, salt=57, fired=fired):
+                    try:
+                        T2 = build(c2)
+                    except Reject:
+                        continue
+                    g2 = np_rng('twin', plan['xseed'])
+                    x2 = SP.rand_elem(T2.domain, g2)
+                    if op.get('path') == 'ip':
+                        y2 = T2(x2, out=T2.range.element())
+                    else:
+                        y2 = T2(x2)
+                    T2.inverse(y2)
+                ctx.fired('twin-precision-transform-first')
             elif t == 'create_tmp':
                 if hasattr(obj, 'create_temporaries'):
                     with seams.allocator(gk, salt=52, fired=fired):
